@@ -224,6 +224,20 @@ def gen(seed, family="mixed", size="small"):
         return gen_pingpong(seed, size)
     if family.startswith("micro_"):
         return micro(family[6:])
+    if family == "longties":
+        # a `ties` model (all delays 0/1: many simultaneous events per LP) whose non-empty payloads all have one size above the 32 bytes
+        # stored inside struct lp_msg, share everything but the last byte, i.e. are ordered only by the part kept in the trailing
+        # extra payload (seeded change C10c / C01a: comparison cut at 32 bytes)
+        m = gen(seed, "ties", size)
+        rr = random.Random(seed * 31 + 3)
+        sz = rr.choice([33, 40, 40, 64, 100])
+        base = [rr.randrange(256) for _ in range(sz)]
+        for i, pl in enumerate(m["payloads"]):
+            if i:
+                pl["size"] = sz
+                pl["bytes"] = base[:-1] + [(base[-1] + i) % 256]
+        m["family"] = "longties"
+        return m
     if family == "chain":
         return gen_chain(seed, size)
     r = random.Random(seed * 7919 + (FAMILIES.index(family) if family in FAMILIES else 99))
